@@ -410,7 +410,10 @@ impl StrSpec {
                 let too_long = s.len() > self.max_len;
                 match r {
                     Err(_) if too_long => {}
-                    Err(_) => st.refused += 1,
+                    Err(_) => {
+                        zverif::core::tolerate_refusal(&self.name(), &format!("push/len{}/n={}", if s.len() > 255 { ">255" } else if s.len() > 16 { ">16" } else { "<=16" }, st.model.len().min(9)), "push refused")?;
+                        st.refused += 1
+                    }
                     Ok(_) if too_long => {
                         return Err(fl("capacity", format!("push of a {}-byte string into a container limited to {} bytes returned Ok", s.len(), self.max_len)));
                     }
